@@ -18,6 +18,12 @@
 #   part native  to_native() on every argument list <= N over a linker/-isystem alphabet (group markers, default
 #                include directory stripping).
 #
+# Unspecified corners (never compared; counted where they occur):
+#   * len() before a flush (may over-count pending duplicates)          -> counter len_differs_before_flush
+#   * the content of an object after to_native() without copy (group markers are written into it)
+#   * a bare `-isystem` that is not followed by a directory operand      -> skipped_unspecified (native part)
+#   * absolute paths given to append_direct/extend_direct (de-duplicated "when safe"): not in the alphabet
+#
 # Checked independently of the reference list (from the operation history only): no argument lost or invented,
 # non-dedupable arguments keep relative order and multiplicity, the later-added of duplicated settings wins.
 import argparse, collections, json, operator, os, sys
